@@ -432,6 +432,87 @@ def gen_importers(ex: Extraction, kp):
 
 GENERATORS.append(gen_importers)
 
+
+def gen_misc(ex: Extraction, kp):
+    from kernpy.core import tokens as T, tokenizers as TK, exporter as EX
+    body = []
+    body.append(f'def tokenSeparator : Str := {lstr(T.TOKEN_SEPARATOR)}')
+    body.append(f'def decorationSeparator : Str := {lstr(T.DECORATION_SEPARATOR)}')
+    body.append(f'def emptyToken : Str := {lstr(T.EMPTY_TOKEN)}')
+    body.append(f'def terminator : Str := {lstr(T.TERMINATOR)}')
+    body.append('def headers : List Str := ' + llist([lstr(h) for h in sorted(T.HEADERS)]))
+    body.append('def coreHeaders : List Str := ' + llist([lstr(h) for h in sorted(T.CORE_HEADERS)]))
+    body.append('def spineOperations : List Str := ' + llist([lstr(h) for h in sorted(T.SPINE_OPERATIONS)]))
+    encs = []
+    for name, member in TK.Encoding.__members__.items():
+        try:
+            pref = member.prefix()
+        except Exception as e:  # noqa
+            ex.problem(f'Encoding.{name}.prefix(): {e}'); pref = ''
+        encs.append((name, member.value, pref))
+    body.append('def encodings : List (Str × Str × Str) := ' + llist([f'({lstr(n)}, {lstr(v)}, {lstr(p)})' for n, v, p in encs]))
+    # the exporter's nullish sets (literals inside export_string / empty_row)
+    t = parse('kernpy/core/exporter.py')
+    es = find_def(t, 'Exporter', 'export_string')
+    nullish = None
+    if es is not None:
+        for n in ast.walk(es):
+            if isinstance(n, ast.Assign) and any(isinstance(tg, ast.Name) and tg.id == 'nullish_tokens' for tg in n.targets):
+                try:
+                    nullish = sorted(ast.literal_eval(n.value))
+                except Exception:
+                    pass
+    if nullish is None:
+        ex.problem('exporter.export_string: nullish_tokens literal not found'); nullish = []
+    body.append('def nullishTokens : List Str := ' + llist([lstr(x) for x in nullish]))
+    er = find_def(t, 'empty_row')
+    lits = sorted({n.value for n in ast.walk(er) if isinstance(n, ast.Constant) and isinstance(n.value, str)}) if er is not None else []
+    if er is None:
+        ex.problem('exporter.empty_row not found')
+    body.append('def emptyRowTokens : List Str := ' + llist([lstr(x) for x in lits]))
+    # option set of kern_to_ekern
+    k2e = find_def(t, 'kern_to_ekern')
+    k2e_opts = None
+    if k2e is not None:
+        for n in ast.walk(k2e):
+            if isinstance(n, ast.Call) and isinstance(n.func, ast.Name) and n.func.id == 'ExportOptions':
+                k2e_opts = {kw.arg: ast.unparse(kw.value) for kw in n.keywords}
+    if k2e_opts is None:
+        ex.problem('kern_to_ekern: ExportOptions(...) call not found'); k2e_opts = {}
+    body.append('def kernToEkernOptions : List (Str × Str) := ' + llist([f'({lstr(k)}, {lstr(v)})' for k, v in sorted(k2e_opts.items())]))
+    ex.files['Misc.lean'] = wrap(body)
+    tk = parse('kernpy/core/tokenizers.py')
+    for cls in ('KernTokenizer', 'EkernTokenizer', 'BekernTokenizer', 'BkernTokenizer', 'AEKernTokenizer', 'AKernTokenizer'):
+        ex.fingerprints[f'tokenizers.{cls}.tokenize'] = fingerprint(find_def(tk, cls, 'tokenize'))
+    ex.fingerprints['tokenizers.TokenizerFactory.create'] = fingerprint(find_def(tk, 'TokenizerFactory', 'create'))
+    ex.fingerprints['tokenizers.Encoding.prefix'] = fingerprint(find_def(tk, 'Encoding', 'prefix'))
+    tt = parse('kernpy/core/tokens.py')
+    for cls in ('NoteRestToken', 'ChordToken', 'SimpleToken', 'ErrorToken', 'HeaderToken', 'CompoundToken', 'BoundingBoxToken', 'MHXMToken'):
+        ex.fingerprints[f'tokens.{cls}.export'] = fingerprint(find_def(tt, cls, 'export'))
+    for fn in ('export_string', 'export_token', 'append_row', 'compute_header_type', '_is_token_in_a_signature_row', '_retrieve_empty_token',
+               'get_spine_types', 'export_options_validator', 'is_signature_cancelled'):
+        ex.fingerprints[f'exporter.Exporter.{fn}'] = fingerprint(find_def(t, 'Exporter', fn))
+    for fn in ('empty_row', 'get_kern_from_ekern', 'ekern_to_krn', 'kern_to_ekern'):
+        ex.fingerprints[f'exporter.{fn}'] = fingerprint(find_def(t, fn))
+    ex.fingerprints['exporter.HeaderTokenGenerator.new'] = fingerprint(find_def(t, 'HeaderTokenGenerator', 'new'))
+    ex.fingerprints['exporter.ExportOptions'] = fingerprint(find_def(t, 'ExportOptions'))
+    im = parse('kernpy/core/importer.py')
+    ex.fingerprints['importer.Importer'] = fingerprint(find_def(im, 'Importer'))
+    dm = parse('kernpy/core/document.py')
+    for cls in ('SignatureNodes', 'Node', 'MultistageTree', 'Document', 'MetacommentsTraversal', 'TokensTraversal'):
+        ex.fingerprints[f'document.{cls}'] = fingerprint(find_def(dm, cls))
+    gm = parse('kernpy/core/generic.py')
+    ex.fingerprints['generic.Generic'] = fingerprint(find_def(gm, 'Generic'))
+    pm = parse('kernpy/io/public.py')
+    ex.fingerprints['public'] = fingerprint(pm)
+    ks = parse('kernpy/core/kern_spine_importer.py')
+    ex.fingerprints['kern_spine_importer.KernSpineImporter.import_token'] = fingerprint(find_def(ks, 'KernSpineImporter', 'import_token'))
+    el = parse('kernpy/core/error_listener.py')
+    ex.fingerprints['error_listener.ErrorListener'] = fingerprint(find_def(el, 'ErrorListener'))
+
+
+GENERATORS.append(gen_misc)
+
 # ---- keep this block last
 if __name__ == '__main__':
     ex = run()
